@@ -78,6 +78,7 @@ def make_cvr(i, b, t=True, f=False):
 
 
 def contest(m, winners, kind, share=None, cards=0):
+    kind = "".join(list(kind))  # the choice function as it comes out of a parser: an equal string, not the library's constant object
     return Contest.from_dict({
         "id": CID, "name": CID, "risk_limit": 0.05, "cards": cards, "choice_function": kind, "n_winners": len(winners),
         "share_to_win": share, "candidates": NAMES[:m], "winner": [NAMES[w] for w in winners],
@@ -149,6 +150,16 @@ def judge(m, prof, enc=(True, False)):
                                 fm = a.assorter.mean(cvrs, use_style=style)
                                 if abs(fm - float(mean)) > 1e-12:
                                     out.append(("C02|mean-vs-values", f"Assorter.mean gives {fm}, exact mean of its own values is {float(mean)} (style {style})"))
+                                # the same list object with one ballot replaced in place (a correction): the mean is that of the list as it is now
+                                if len(pool) >= 2 and vals[0] != vals[-1]:
+                                    lst = [cvrs[i] for i in pool]
+                                    m_before = a.assorter.mean(lst, use_style=style)
+                                    lst[0] = lst[-1]
+                                    m_after = a.assorter.mean(lst, use_style=style)
+                                    want_after = float(exact_mean(vals[1:] + vals[-1:]))
+                                    if abs(m_after - want_after) > 1e-12:
+                                        out.append(("C02|mean-of-a-list-changed-in-place", f"Assorter.mean of a list whose first ballot was replaced in place gives {m_after} (before the change {m_before}), "
+                                                    f"the list now has mean {want_after}"))
                                 # (iv) tally margins
                                 for enforce in (False, True):
                                     # vote-for-k plurality: the assorter does not judge validity, so tallies under the rules are
